@@ -28,6 +28,11 @@ abbrev hinfoTargetedAccess (h : HInfo) : Option CA := if h.recv.targeted then so
 /-- `Archetype::entity_count()` -/
 abbrev archEntityCount (a : Arch) : Nat := a.ids.length
 
+/-- `BTreeMap<u64, HandlerInfoPtr>::remove` / `TypeIdMap::remove` on an association list: the entries with another key stay, in
+    order; the value removed -/
+abbrev assocRemove (l : List (Nat × Key)) (k : Nat) : List (Nat × Key) × Option Key :=
+  (l.filter (·.1 != k), (l.find? (·.1 == k)).map (·.2))
+
 /-- `Slab::get` / `get_mut` -/
 abbrev slabGet {α : Type} (s : Slab α) (i : Nat) : Option α := s.get i
 abbrev slabSet {α : Type} (s : Slab α) (i : Nat) (a : α) : Slab α := s.set i a
